@@ -547,6 +547,8 @@ class Interp:
             raise RaiseExc("AttributeError", node)
         if isinstance(obj, FuncRef) and obj.kind == "class":
             ci = obj.info
+            if attr == "__name__":
+                return ci.name
             if attr in ci.methods:
                 return BoundMethod(obj, attr)
             raise Unsupp(f"class attribute {ci.name}.{attr}")
